@@ -657,3 +657,23 @@ mod tests {
         assert_eq!(repetition.to_string(), "a?");
     }
 }
+
+#[cfg(grex_verif)]
+impl<'a> Expression<'a> {
+    /// The two private operations of the elimination loop, for the verification harness.
+    pub(crate) fn verif_union(
+        a: &Option<Expression<'a>>,
+        b: &Option<Expression<'a>>,
+        config: &'a RegExpConfig,
+    ) -> Option<Expression<'a>> {
+        Self::union(a, b, config)
+    }
+
+    pub(crate) fn verif_concatenate(
+        a: &Option<Expression<'a>>,
+        b: &Option<Expression<'a>>,
+        config: &'a RegExpConfig,
+    ) -> Option<Expression<'a>> {
+        Self::concatenate(a, b, config)
+    }
+}
